@@ -1295,6 +1295,8 @@ where
         self.pid_pubcomp.clear();
         self.store.clear();
         self.qos2_publish_handled.clear();
+        // No exchange is left that could count against the peer's Receive Maximum
+        self.publish_send_count = 0;
     }
 
     /// Send all stored packets for retransmission
